@@ -7,8 +7,9 @@
    about [lookup], so the order is irrelevant.  Modelled literally:
      * the "remove all redox" loop:   while (deleted) { scan from begin(); erase the FIRST key that starts
        with "elt("; restart }                                  -> [scan] with explicit fuel, [erase_first]
-     * elt_name = redox_name.substr(0, pos - 1) in the valence-state branch (pos = index of "(")
-       -- ONE CHARACTER SHORT of the element name: for "Fe(2)" it is "F"           -> [redox_elt_name]
+     * elt_name = redox_name.substr(0, pos) in the valence-state branch (pos = index of "(")  -> [redox_elt_name]
+       (before the repair: substr(0, pos - 1), one character short: "Fe(2)" -> "F"  -> [redox_elt_name_old],
+        kept below as the refuted old behaviour)
    The tie is a correspondence: harness/c10_nd.cpp calls the real cxxNameDouble::merge_redox on generated
    maps and the result is compared with [merge_redox] evaluated by Coq (props/c10.py). *)
 From Coq Require Import String List Ascii Bool Arith Lia.
@@ -76,8 +77,13 @@ Section MR.
     | String c r => if Ascii.eqb c "("%char then Some 0 else option_map S (index_paren r)
     end.
 
-  (* redox_name.substr(0, pos - 1); for pos = 0 the unsigned pos - 1 is npos: the whole string *)
-  Definition redox_elt_name (k : string) (pos : nat) : string :=
+  (* redox_name.substr(0, pos): the element name in front of "(" *)
+  Definition redox_elt_name (k : string) (pos : nat) : string := String.substring 0 pos k.
+
+  (* what the code did before the repair (commit "fix: merge_redox strips one character too many"):
+     redox_name.substr(0, pos - 1), ONE CHARACTER SHORT -- for "Fe(2)" it is "F" (for pos = 0 the unsigned
+     pos - 1 is npos: the whole string) *)
+  Definition redox_elt_name_old (k : string) (pos : nat) : string :=
     match pos with O => k | S q => String.substring 0 q k end.
 
   Definition merge1 (m : ndmap) (kv : string * V) : ndmap :=
@@ -140,8 +146,8 @@ Section MR.
     - intros k' Hne Hp. rewrite lookup_set_other by exact Hne. apply lookup_remove_if_miss. exact Hp.
   Qed.
 
-  (* what the valence-state branch really does: it stores the entry, removes the key [redox_elt_name]
-     (the element name WITHOUT ITS LAST CHARACTER), changes nothing else *)
+  (* the valence-state branch stores the entry, removes the total named by the element ([redox_elt_name]),
+     changes nothing else *)
   Theorem merge_redox_state : forall m k v pos,
       index_paren k = Some pos ->
       lookup k (merge1 m (k, v)) = Some v
@@ -159,13 +165,26 @@ End MR.
 
 Arguments lookup {V}. Arguments merge1 {V}. Arguments merge_redox {V}. Arguments scan {V}. Arguments remove_if {V}.
 
-(* the stated intention of the valence-state branch ("Remove elt_name, if present") is NOT what the code
-   does: merging Fe(2) removes the fluoride total F and keeps a total named Fe *)
-Example redox_branch_removes_wrong_key :
+(* the valence-state branch now removes the ELEMENT total and leaves fluoride alone *)
+Example redox_branch_removes_element_total :
   let m := [("F", 5); ("Fe", 7); ("Na", 1)] in
-  lookup "F" (merge_redox m [("Fe(2)", 3)]) = None
-  /\ lookup "Fe" (merge_redox m [("Fe(2)", 3)]) = Some 7
+  lookup "F" (merge_redox m [("Fe(2)", 3)]) = Some 5
+  /\ lookup "Fe" (merge_redox m [("Fe(2)", 3)]) = None
   /\ lookup "Fe(2)" (merge_redox m [("Fe(2)", 3)]) = Some 3.
+Proof. vm_compute. repeat split. Qed.
+
+(* the OLD code (finding restore:SOLUTION_RAW:-totals:F, repaired): merging Fe(2) removed the fluoride total F *)
+Definition merge1_old {V} (m : ndmap V) (kv : string * V) : ndmap V :=
+  let (k, v) := kv in
+  match index_paren k with
+  | Some pos => set V k v (remove_key V (redox_elt_name_old k pos) m)
+  | None => merge1 m kv
+  end.
+
+Example old_redox_branch_refuted :
+  let m := [("F", 5); ("Fe", 7); ("Na", 1)] in
+  lookup "F" (fold_left merge1_old [("Fe(2)", 3)] m) = None
+  /\ lookup "Fe" (fold_left merge1_old [("Fe(2)", 3)] m) = Some 7.
 Proof. vm_compute. repeat split. Qed.
 
 Example element_branch_example :
